@@ -215,5 +215,8 @@ func CustomFormat(custom string) string {
 	if custom == "xorlong" {
 		return "x-xor-long-name-18"
 	}
+	if custom == "byolz4" {
+		return "lz4" // a caller-supplied encoder for a format the library also knows
+	}
 	return "x-" + custom
 }
